@@ -179,3 +179,89 @@ def run(ck, prog):
     _run0(ck, prog)
     mask_provenance(ck, prog)
     ck.floor("E2h-mask", 2)
+
+
+def _tree_loop_exit(b, res):
+    """(switch block, body edge dst, exhausted edge dst) of the loop iterating self.trees"""
+    for i, blk in enumerate(b.blocks):
+        t = blk["term"]
+        if blk["cleanup"] or i not in b.reach or t["k"] != "switch" or t["o"]["k"] not in ("copy", "move"):
+            continue
+        term = res.operand(t["o"])
+        if term[0] == "discr" and term[1][0] == "call" and term[1][1].endswith("Iterator::next") \
+                and any(s[0] == "field" and s[2] == "trees" for s in subterms(term)):
+            some = [d for v, d in t["targets"] if v == "1"]
+            none = [d for v, d in t["targets"] if v == "0"]
+            if some and none:
+                return i, some[0], none[0]
+    return None
+
+
+def aggregates_all_trees(ck, prog):
+    """the forest's answer for a row is formed after the loop over ALL member trees: no return from inside the loop"""
+    rule = "E2h-aggregate"
+    from sa import guards as G
+    for nm, base in (("classifier", "ensemble::random_forest_classifier::RandomForestClassifier::<T>::"),
+                     ("regressor", "ensemble::random_forest_regressor::RandomForestRegressor::<T>::")):
+        for fn in ("predict_for_row", "predict_for_row_oob"):
+            inst = f"{nm} {fn}: the result is formed after all member trees have been visited"
+            b = prog.bodies.get(base + fn)
+            if not b:
+                ck.violation(rule, inst, base + fn, "", expected="anchor exists", found="anchor vanished")
+                continue
+            res = Resolver(b)
+            lp = _tree_loop_exit(b, res)
+            if not lp:
+                ck.violation(rule, inst, b.path, f"{b.loc[0]}:{b.loc[1]}", expected="a loop over self.trees", found="no such loop recognised")
+                continue
+            sw, body_dst, exit_dst = lp
+            be = G.back_edges(b)
+            inside = b.reachable_from([body_dst], cut_edges=be, cut_blocks=frozenset([exit_dst]))
+            early = [r for r in b.returns if r in inside]
+            # blocks of the loop body that leave the loop without going back to the header
+            if early:
+                ck.violation(rule, inst, b.path, b.where(early[0]), expected="every return is reached only after the iterator over the trees is exhausted",
+                             found=f"a return is reachable from inside the loop body (early exit before all trees voted)")
+            else:
+                ck.ok(rule, inst, b.path, b.where(sw), "all returns lie behind the exhausted edge of the tree loop")
+
+
+def bootstrap_no_skip(ck, prog):
+    """stratified bootstrap: within the per-class iteration the draw loop is reached on every path (no class is skipped)"""
+    rule, inst = "E2h-stratified", "classifier sample_with_replacement: every class iteration reaches the draw loop"
+    from sa import guards as G, flow as F
+    b = prog.bodies.get("ensemble::random_forest_classifier::RandomForestClassifier::<T>::sample_with_replacement")
+    if not b:
+        ck.violation(rule, inst, "sample_with_replacement", "", expected="anchor exists", found="anchor vanished")
+        return
+    res = Resolver(b)
+    draws = [bb for bb, t in b.calls() if t.get("f") and t["f"]["path"].endswith(F.DRAW_SUFFIX)]
+    if not draws:
+        ck.violation(rule, inst, b.path, "", expected="a draw site", found="none")
+        return
+    be = sorted(G.back_edges(b))
+    # loop headers that dominate the draw, outermost first
+    headers = sorted({h for (u, h) in be if b.dominates(h, draws[0])}, key=lambda h: len(b.dom[h]))
+    if len(headers) < 2:
+        ck.violation(rule, inst, b.path, b.where(draws[0]), expected="a per-class loop around the draw loop", found=f"{len(headers)} enclosing loops")
+        return
+    outer, inner = headers[0], headers[-1]
+    latches = [u for (u, h) in be if h == outer]
+    # every path from the outer body back to the outer header passes through the draw loop's header
+    ok = all(b.dominates(inner, u) for u in latches)
+    if ok:
+        ck.ok(rule, inst, b.path, b.where(draws[0]), "the draw loop header dominates the class loop's latch")
+    else:
+        ck.violation(rule, inst, b.path, b.where(draws[0]), expected="no path of a class iteration bypasses the draw loop",
+                     found="a class iteration can return to the class loop without entering the draw loop (a class can be skipped)")
+
+
+_run_c06 = run
+
+
+def run(ck, prog):
+    _run_c06(ck, prog)
+    aggregates_all_trees(ck, prog)
+    bootstrap_no_skip(ck, prog)
+    ck.floor("E2h-aggregate", 4)
+    ck.floor("E2h-stratified", 1)
